@@ -110,7 +110,7 @@ func runTargetsCase(wt *watch, c *TargetsCase, idx, layout int) Event {
 		if n := len(e.Labels); n > 0 {
 			hdr[1] = e.Labels[n-1][1]
 		}
-		extn[k] = Event{"full": []int{e.Full[0], e.Full[1]}, "name": []int{e.Name[0], e.Name[1]}, "header": hdr}
+		extn[k] = Event{"full": []int{e.Full[0], e.Full[1]}, "name": []int{e.Name[0], e.Name[1]}, "header": hdr, "value": []int{e.Value[0], e.Value[1]}}
 	}
 	ev["extn"] = extn
 	return ev
